@@ -411,7 +411,7 @@ class LibHarness(Harness):
         if (('H',) in old_spec) != (('H',) in hist[0][1]): ctx.cover('title-changed')
         if self.tv_pick(ctx.trace):
             script, probes = self.native_scripts(jsonable_spec(ctx.input_desc), sorted(texts))
-            exp = {k: v for k, v in oi.items()}
+            exp = {k: v for k, v in oi.items() if not k.startswith(('content:', 'search'))}
             ctx.tv = {'script': script[0], 'expect': None, 'post': ('lib', sorted(texts), jsonable_cmp(exp))}
         return {'input': str(ctx.input_desc)[:300], 'arena_nodes': len(nodes_i), 'paths': str(oi['paths'])[:120]}
 
